@@ -295,6 +295,14 @@ def check(name, sk, d, slot, v, exempt, args):
         ok, why = False, "substituting inline forms does not reproduce the inline SQL (probe instantiation)"
     if ok and exempt and not substitute(psql, vals, d, q.get_sql(dctx(d)), None):
         ok, why = False, "substituting inline forms does not reproduce the inline SQL"
+    if ok and exempt:
+        # exempt by contract: inline in both renderings, i.e. absent from the value list
+        scalar_hits = 0
+        for x in vals_p:
+            if not isinstance(x, list) and x == PROBE:
+                scalar_hits += 1
+        if scalar_hits > 0 and len(vals) != len(vals_p) - scalar_hits:
+            ok, why = False, "a value that is exempt by contract was parameterised"
     note("why", why)
     return verdict(ok, name, **args)
 
